@@ -1,4 +1,287 @@
-import OtelVerif.Model.C12
-/-! C12 property theorems (stub) -/
+import OtelVerif.Lemmas.C12
+/-!
+# C12 — config resolution: right-biased merge; exact, escapable, terminating expansion
+
+Property theorems about the model in `Model/C12.lean` (the *repaired* `confmap/expand.go`; `Mode.pinned`
+keeps the two pinned behaviours so that the defects are kernel-checked counterexamples).  Termination needs
+no theorem of its own: every function of the model is structurally recursive (Lean accepted them as total),
+the only loop, `expandRec`, recurses on the loop bound, and `C12_cycle_error` shows what the bound reports.
+-/
 namespace OtelVerif.C12
+
+/-! ## merge -/
+
+theorem C12_merge_lookup : ∀ (a b : KVs) (k : Str), a.keys.Nodup →
+    (mergeKVs a b).lookup k = mergeAt (a.lookup k) (b.lookup k)
+  | .nil, b, k, _ => by simp [mergeKVs, KVs.lookup, mergeAt]
+  | .cons k0 v rest, b, k, hnd => by
+    simp only [KVs.keys, List.nodup_cons] at hnd
+    rw [mergeKVs_cons, C12_merge_lookup rest _ k hnd.2]
+    by_cases hk : k0 = k
+    · subst hk
+      rw [KVs.lookup_not_mem rest hnd.1, KVs.lookup_set_same]
+      simp only [KVs.lookup, if_true]
+      cases hb : b.lookup k0 with
+      | none => cases v <;> simp [mergeAt, mergeOne]
+      | some bv => cases v <;> cases bv <;> simp [mergeAt, mergeOne]
+    · have hk' : k ≠ k0 := fun e => hk e.symm
+      rw [KVs.lookup_set_other _ hk']
+      simp [KVs.lookup, hk]
+
+theorem C12_merge_empty_source (b : KVs) : mergeKVs .nil b = b := by simp [mergeKVs]
+
+theorem C12_merge_sources_empty (srcs : List KVs) : mergeSources (srcs ++ [.nil]) = mergeSources srcs := by
+  rw [mergeSources_snoc, C12_merge_empty_source]
+
+/-! ## string search: what `findURI` returns is a real occurrence -/
+
+/-- `findURI` returns a genuine decomposition of its input around a `${…}` occurrence; the (repaired)
+replacement is positional, so only that occurrence is rewritten -/
+theorem C12_findURI_sound {mode : Mode} {hd : Bool} {s b body a : Str}
+    (h : findURI mode hd s = some (b, body, a)) : s = b ++ '$' :: '{' :: body ++ '}' :: a := findURI_sound h
+
+/-- **the heart of the escaping clause**: on the rendering of any well-formed token list, the (repaired)
+`findURI` returns exactly the first real reference token — with its exact position — no matter how many
+escaped look-alikes, stray braces or `$` runs precede it; and nothing if there is no reference token -/
+theorem C12_findURI_first_ref (env : Env) (ts : List Tok) (h : tokOK env ts = true) :
+    findURI .fixed env.defaultScheme.isSome (render ts) =
+      (splitFirstRef ts).map (fun r => (render r.1, Tok.body r.2.1 r.2.2.1, render r.2.2.2)) :=
+  findURI_first_ref env ts h
+
+/-! ## text with neither `$$` nor a complete reference is unchanged -/
+
+theorem C12_literal_unchanged (env : Env) (s : Str) (hfuel : 0 < env.fuel)
+    (hesc : hasEsc s = false) (href : ¬ HasCompleteRef s) :
+    resolveValue env (.str s) = .ok (.str s) := by
+  unfold resolveValue
+  obtain ⟨n, hn⟩ : ∃ n, env.fuel = n + 1 := ⟨env.fuel - 1, by omega⟩
+  rw [hn, expandRec, expandValue, expandStr_of_noRef env s href]
+  simp [escapeDollarSigns, unescape_of_noEsc s hesc]
+
+/-! ## a whole-value reference -/
+
+/-! ## `expandURI` on a well-formed reference -/
+
+/-! ## typed whole values, string targets, cycles, `$` in a name -/
+
+/-- a reference that is the whole value yields the provider's *typed* value, with the original text kept
+for string targets -/
+theorem C12_typed_whole (env : Env) (body : Str) (r : Retrieved) (v : Str)
+    (hb : hasDollar body = false) (hc : hasClose body = false)
+    (hs : env.defaultScheme.isSome = true ∨ hasColon body = true)
+    (hexp : expandURI env body = .ok r) (hstr : r.asString = some v) (hv : hasDollar v = false)
+    (hraw : r.raw.isScalar = true) (hfuel : 2 ≤ env.fuel) :
+    resolveValue env (.str ('$' :: '{' :: body ++ ['}'])) = .ok (.expanded r.raw v) := by
+  obtain ⟨n, hn⟩ : ∃ n, env.fuel = n + 2 := ⟨env.fuel - 2, by omega⟩
+  unfold resolveValue
+  rw [hn, expandRec, expandValue, expandStr_whole env body r hb hc hs hexp, hstr]
+  simp only
+  rw [expandRec, expandValue]
+  have hu : unescape v = v := unescape_of_noEsc v (hasEsc_of_noDollar v hv)
+  cases hr : r.raw <;> simp_all [Val.isScalar, expandValue, expandStr_noDollar, escapeDollarSigns]
+
+/-- … so a Go `string` field receives the original text and an `int` field the parsed number -/
+theorem C12_string_target_gets_original (env : Env) (body : Str) (r : Retrieved) (v : Str) (i : Int)
+    (hb : hasDollar body = false) (hc : hasClose body = false)
+    (hs : env.defaultScheme.isSome = true ∨ hasColon body = true)
+    (hexp : expandURI env body = .ok r) (hstr : r.asString = some v) (hv : hasDollar v = false)
+    (hraw : r.raw = .int i) (hfuel : 2 ≤ env.fuel) :
+    ∃ res, resolveValue env (.str ('$' :: '{' :: body ++ ['}'])) = .ok res ∧
+      decodeString res = some v ∧ decodeInt res = some i ∧ sanitize false res = .int i := by
+  refine ⟨_, C12_typed_whole env body r v hb hc hs hexp hstr hv (by simp [hraw, Val.isScalar]) hfuel, ?_⟩
+  simp [hraw, decodeString, decodeInt, sanitize]
+
+/-- a provider that answers a reference with the same reference never converges: reported as an error,
+for every value of the loop bound -/
+theorem C12_cycle_error (env : Env) (body : Str) (r : Retrieved)
+    (hb : hasDollar body = false) (hc : hasClose body = false)
+    (hs : env.defaultScheme.isSome = true ∨ hasColon body = true)
+    (hexp : expandURI env body = .ok r)
+    (hraw : r.raw = .str ('$' :: '{' :: body ++ ['}'])) (hstr : r.asString = some ('$' :: '{' :: body ++ ['}'])) :
+    resolveValue env (.str ('$' :: '{' :: body ++ ['}'])) = .error [.tooMany] := by
+  have h1 := expandStr_whole env body r hb hc hs hexp
+  rw [hstr, hraw] at h1
+  have hloop : ∀ n, expandRec env n (.expanded (.str ('$' :: '{' :: body ++ ['}'])) ('$' :: '{' :: body ++ ['}']))
+      = .error [.tooMany] := by
+    intro n
+    induction n with
+    | zero => rfl
+    | succ n ih =>
+      rw [expandRec, expandValue, expandValue, h1]
+      simpa using ih
+  unfold resolveValue
+  cases hf : env.fuel with
+  | zero => rfl
+  | succ n =>
+    rw [expandRec, expandValue, h1]
+    have h2 := hloop n
+    simp only [List.cons_append] at h2 ⊢
+    rw [h2]
+
+/-- a reference whose name contains `$` is an error -/
+theorem C12_dollar_in_name_error (env : Env) (s b a sc nm : Str) (hfuel : 0 < env.fuel)
+    (hf : findURI env.mode env.defaultScheme.isSome s = some (b, sc ++ ':' :: nm, a))
+    (hv : validScheme sc = true) (hd : hasDollar nm = true) :
+    resolveValue env (.str s) = .error [.dollarInName] := by
+  have hdec := C12_findURI_sound hf
+  have ho : hasOpen s = true := by
+    rw [hdec]
+    simpa [List.append_assoc] using hasOpen_append_open b ((sc ++ ':' :: nm) ++ '}' :: a)
+  have hcl : hasClose s = true := by rw [hdec]; simp [hasClose]
+  have hexp : expandURI env (sc ++ ':' :: nm) = .error .dollarInName := by
+    unfold expandURI
+    have hcol : hasColon (sc ++ ':' :: nm) = true := by simp [hasColon]
+    simp only [hcol, if_true, splitColon_append sc nm (hasColon_of_validScheme sc hv)]
+    simp [hv, hd]
+  have hes : expandStr env s = .error [.dollarInName] := by
+    unfold expandStr
+    simp only [ho, hcl, Bool.not_true, Bool.or_self, Bool.false_eq_true, if_false]
+    unfold findAndExpandURI
+    rw [hf]
+    simp only [hexp, ite_self]
+  obtain ⟨n, hn⟩ : ∃ n, env.fuel = n + 1 := ⟨env.fuel - 1, by omega⟩
+  unfold resolveValue
+  rw [hn, expandRec, expandValue, hes]
+
+/-! ## `findURI` on a well-formed token string returns exactly the first real reference -/
+
+/-! ## one round of expansion, and the final un-escaping -/
+
+/-- one round on a well-formed token string with an embedded first reference: exactly that occurrence is
+replaced by the provider's string, everything before and after it (escaped look-alikes included) is kept -/
+theorem C12_tokens_round (env : Env) (hmode : env.mode = .fixed) (ts pre post : List Tok) (sc : Option Str) (nm : Str)
+    (h : tokOK env ts = true) (hs : splitFirstRef ts = some (pre, sc, nm, post))
+    (hne : (render pre).isEmpty = false ∨ (render post).isEmpty = false) :
+    ∃ v, refString env sc nm = some v ∧
+      expandStr env (render ts) = .ok (.str (render pre ++ v ++ render post), true) := by
+  obtain ⟨hts, -⟩ := splitFirstRef_eq ts pre post sc nm hs
+  have hsuf : tokOK env (.ref sc nm :: post) = true := tokOK_suffix env _ pre (by rw [← hts]; exact h)
+  obtain ⟨-, -, -, -, -, -, r, v, hexp, hstr, hrs, -⟩ := ref_facts hsuf
+  have hf := C12_findURI_first_ref env ts h
+  rw [hs] at hf
+  simp only [Option.map_some] at hf
+  have hdec := C12_findURI_sound hf
+  have ho : hasOpen (render ts) = true := by
+    rw [hdec]
+    simpa [List.append_assoc] using hasOpen_append_open (render pre) (Tok.body sc nm ++ '}' :: render post)
+  have hcl : hasClose (render ts) = true := by rw [hdec]; simp [hasClose]
+  refine ⟨v, hrs, ?_⟩
+  unfold expandStr
+  simp only [ho, hcl, Bool.not_true, Bool.or_self, Bool.false_eq_true, if_false]
+  unfold findAndExpandURI
+  rw [hmode, hf]
+  have hw : ((render pre).isEmpty && (render post).isEmpty) = false := by
+    rcases hne with h1 | h1 <;> simp [h1]
+  simp only [hw, Bool.false_eq_true, if_false, hexp, hstr]
+
+/-- full statement for strings without reference tokens (escapes, escaped references, stray braces, lone `$`):
+the resolved value is the meaning of the token list -/
+theorem C12_tokens_noref (env : Env) (hmode : env.mode = .fixed) (hfuel : 0 < env.fuel) (ts : List Tok) (w : Str)
+    (h : tokOK env ts = true) (hn : numRefs ts = 0) (hs : sem env ts = some w) :
+    resolveValue env (.str (render ts)) = .ok (.str w) := by
+  obtain ⟨n, hfn⟩ : ∃ n, env.fuel = n + 1 := ⟨env.fuel - 1, by omega⟩
+  unfold resolveValue
+  rw [hfn, expandRec, expandValue, expandStr_noref env hmode ts h hn]
+  simp [escapeDollarSigns, unescape_tokens env ts w h hn hs]
+
+/-! ## the full token statement, what is proved of it, and the pinned code's counterexamples -/
+
+/-- what a string field sees of a resolution result -/
+def resStr : Except Errs Val → Option Str
+  | .ok v => decodeString v
+  | .error _ => none
+
+/-- FULL statement of the expansion clause on the unambiguous token fragment: every reference replaced by the
+provider's string, `$$` ↦ `$` protecting what follows, for every well-formed token list whose number of
+references is below the loop bound -/
+def C12_tokens_full (mode : Mode) : Prop :=
+  ∀ (env : Env) (toks : List Tok) (w : Str), env.mode = mode → tokOK env toks = true →
+    numRefs toks < env.fuel → sem env toks = some w →
+    resStr (resolveValue env (.str (render toks))) = some w
+
+/-- what is proved of `C12_tokens_full .fixed` for ALL well-formed token lists: (i) the full statement when the
+list has no reference token (any mix of `$$`, escaped references, stray braces, lone `$`); (ii) with references,
+one round replaces exactly the first real reference, in place, by the provider's string.  NOT proved: the
+composition of (ii) over all rounds followed by the un-escaping (re-tokenising the substituted text); that part
+of the full statement is checked by the differential and by the `tokens` oracle on every run. -/
+theorem C12_tokens_partial (env : Env) (hmode : env.mode = .fixed) (hfuel : 0 < env.fuel) (toks : List Tok) (w : Str)
+    (h : tokOK env toks = true) (hs : sem env toks = some w) :
+    (numRefs toks = 0 → resStr (resolveValue env (.str (render toks))) = some w) ∧
+    (∀ pre sc nm post, splitFirstRef toks = some (pre, sc, nm, post) →
+      ((render pre).isEmpty = false ∨ (render post).isEmpty = false) →
+      ∃ v, refString env sc nm = some v ∧
+        expandValue env (.str (render toks)) = .ok (.str (render pre ++ v ++ render post), true)) := by
+  refine ⟨fun hn => ?_, fun pre sc nm post hsp hne => ?_⟩
+  · rw [C12_tokens_noref env hmode hfuel toks w h hn hs]; rfl
+  · obtain ⟨v, hv, he⟩ := C12_tokens_round env hmode toks pre post sc nm h hsp hne
+    exact ⟨v, hv, by rw [expandValue]; exact he⟩
+
+def exEnv (mode : Mode) : Env :=
+  { mode := mode, schemes := [['e', 'n', 'v']], fuel := 10,
+    prov := fun sc nm =>
+      if sc = ['e', 'n', 'v'] ∧ nm = ['X'] then some ⟨.str ['f', 'o', 'o'], some ['f', 'o', 'o']⟩
+      else if sc = ['e', 'n', 'v'] ∧ nm = ['P'] then some ⟨.int 8080, some ['8', '0', '8', '0']⟩
+      else if sc = ['e', 'n', 'v'] ∧ nm = ['A'] then
+        some ⟨.str ['$', '{', 'e', 'n', 'v', ':', 'A', '}'], some ['$', '{', 'e', 'n', 'v', ':', 'A', '}']⟩
+      else none }
+
+def refX : Tok := .ref (some ['e', 'n', 'v']) ['X']
+
+/-- `$${env:X} ${env:X}` (DESIGN finding 1) -/
+def wit1 : List Tok := [.esc, .lit ['{', 'e', 'n', 'v', ':', 'X'], .close, .lit [' '], refX]
+
+/-- `${env:X} $${env:X}` (DESIGN finding 2) -/
+def wit2 : List Tok := [refX, .lit [' '], .esc, .lit ['{', 'e', 'n', 'v', ':', 'X'], .close]
+
+/-- the code at the pinned commit violates the full statement: an escaped reference stops the search … -/
+theorem C12_tokens_full_pinned_fails : ¬ C12_tokens_full .pinned := by
+  intro h
+  have := h (exEnv .pinned) wit1 ['$', '{', 'e', 'n', 'v', ':', 'X', '}', ' ', 'f', 'o', 'o'] rfl (by decide) (by decide) (by decide)
+  revert this
+  decide
+
+/-- … and `ReplaceAll` also rewrites the escaped occurrence -/
+theorem C12_tokens_full_pinned_fails_replaceAll :
+    resStr (resolveValue (exEnv .pinned) (.str (render wit2))) = some ['f', 'o', 'o', ' ', '$', 'f', 'o', 'o'] ∧
+    sem (exEnv .pinned) wit2 = some ['f', 'o', 'o', ' ', '$', '{', 'e', 'n', 'v', ':', 'X', '}'] := by
+  decide
+
+/-- the repaired code resolves both witnesses to their meaning (kernel evaluation of the model) -/
+theorem C12_tokens_witnesses_fixed :
+    resStr (resolveValue (exEnv .fixed) (.str (render wit1))) = sem (exEnv .fixed) wit1 ∧
+    resStr (resolveValue (exEnv .fixed) (.str (render wit2))) = sem (exEnv .fixed) wit2 := by
+  decide
+
+/-! non-vacuity of the hypotheses used above -/
+
+example : tokOK (exEnv .fixed) wit1 = true ∧ tokOK (exEnv .fixed) wit2 = true := by decide
+
+example : splitFirstRef wit1 = some ([.esc, .lit ['{', 'e', 'n', 'v', ':', 'X'], .close, .lit [' ']], some ['e', 'n', 'v'], ['X'], []) := by
+  decide
+
+example : findURI .fixed false (render wit1) = some (render (wit1.take 4), ['e', 'n', 'v', ':', 'X'], []) :=
+  C12_findURI_first_ref (exEnv .fixed) wit1 (by decide)
+
+example : resolveValue (exEnv .fixed) (.str ['$', '{', 'e', 'n', 'v', ':', 'P', '}']) = .ok (.expanded (.int 8080) ['8', '0', '8', '0']) :=
+  C12_typed_whole (exEnv .fixed) ['e', 'n', 'v', ':', 'P'] ⟨.int 8080, some ['8', '0', '8', '0']⟩ _
+    (by decide) (by decide) (by decide) rfl rfl (by decide) rfl (by decide)
+
+example : resolveValue (exEnv .fixed) (.str ['$', '{', 'e', 'n', 'v', ':', 'A', '}']) = .error [.tooMany] :=
+  C12_cycle_error (exEnv .fixed) ['e', 'n', 'v', ':', 'A']
+    ⟨.str ['$', '{', 'e', 'n', 'v', ':', 'A', '}'], some ['$', '{', 'e', 'n', 'v', ':', 'A', '}']⟩
+    (by decide) (by decide) (by decide) rfl rfl rfl
+
+example : resolveValue (exEnv .fixed) (.str ['a', '$', '{', 'e', 'n', 'v', ':', 'a', '$', 'b', '}']) = .error [.dollarInName] :=
+  C12_dollar_in_name_error (exEnv .fixed) _ ['a'] [] ['e', 'n', 'v'] ['a', '$', 'b'] (by decide) (by decide) (by decide) (by decide)
+
+example : hasEsc ['a', '$', '{', 'x', ' ', '$', 'b'] = false ∧ ¬ HasCompleteRef ['a', '$', '{', 'x', ' ', '$', 'b'] := by
+  refine ⟨by decide, ?_⟩
+  rintro ⟨a, body, c, h⟩
+  have : hasClose ['a', '$', '{', 'x', ' ', '$', 'b'] = true := by rw [h]; simp [hasClose]
+  revert this; decide
+
+example : (mergeKVs (.cons ['a'] (.map (.cons ['y'] (.int 2) .nil)) .nil)
+            (.cons ['a'] (.map (.cons ['x'] (.int 1) .nil)) (.cons ['b'] (.str ['k']) .nil))).lookup ['b'] = some (.str ['k']) := by
+  rw [C12_merge_lookup _ _ _ (by decide)]; rfl
+
 end OtelVerif.C12
